@@ -137,7 +137,7 @@ theorem C03_incremental_k (ops : List Op) (hone : ∀ op ∈ ops, op.oneOne = tr
 /-- Consuming the same `Stream` again starts from scratch: whatever was consumed before (any `k`,
     any budget), re-iterating puts every stage back into the state `build ops` — so the second
     consumption again yields the sequential meaning (`C03_pull_eq_sem`).  (On the pinned code
-    `accumulate` violated this: F22, `Legacy/PipelineReiter.lean`.) -/
+    `accumulate` violated this: F23, `Legacy/PipelineReiter.lean`.) -/
 theorem C03_reiterate (ops : List Op) (vals : List Val) (err : Option Err) (orc : List Bool) (k fuel : Nat) :
     rebuild (takeK fuel k (build ops) (World.init vals err orc)).2.2.1 = build ops :=
   rebuild_eq ops _ (takeK_ops k fuel _ _)
@@ -241,6 +241,18 @@ theorem C03_law_groupby (key : Val → Res) (k : Val → Val) (vals : List Val)
   rw [hs] at h1 h2
   simp only at h1 h2
   rw [h1, h2]
+
+/-- `accumulate g` with an accumulator function that does not raise is the running fold
+    (`scanl` without its seed); without an initializer the first element is the seed -/
+theorem C03_law_accumulate (g : Val → Val → Res) (h : Val → Val → Val) (hg : ∀ z v, g z v = .ok (h z v))
+    (vals : List Val) (e : Option Err) (z x : Val) :
+    sem (.accumulate g (some z)) ⟨vals, e⟩ = ⟨(vals.scanl h z).tail, e⟩ ∧
+    sem (.accumulate g Option.none) ⟨x :: vals, e⟩ = ⟨vals.scanl h x, e⟩ := by
+  refine ⟨semAcc_total g h hg vals e z, ?_⟩
+  simp only [sem, semAcc, semAcc_total g h hg vals e x, Strm.cons]
+  cases vals with
+  | nil => rfl
+  | cons w r => simp [List.scanl_cons]
 
 /-- `buffer n` and `peek` are the identity; `parmap f` without flags is `map f` -/
 theorem C03_law_identity (n : Nat) (f : Val → Res) (c : Nat) (s : Strm) :
